@@ -23,7 +23,7 @@ TOGGLES = [
     "alias_scalars", "component_parameters", "component_bodies", "component_responses", "path_item_parameters",
     "same_name_two_locations", "multi_body", "multipart", "form", "octet", "text_responses", "plus_json",
     "no_content", "security", "tags", "defaults", "descriptions", "query_arrays", "header_params",
-    "cookie_params", "shared_paths", "inline_response_objects", "shuffle_decl", "media_type_params", "item_level_name_clash", "multi_media_responses", "wrapped_refs", "rich_form_fields", "reserved_param_names", "python_name_clash", "noise_responses", "trailing_slash_paths", "prefix_names", "inline_in_aliases", "inline_allof", "shared_body_models", "decorations", "shared_components", "no_operation_id", "long_paths", "coinciding_enums", "http_header_names", "titles", "embedded_placeholders", "root_security", "array_in_unions",
+    "cookie_params", "shared_paths", "inline_response_objects", "shuffle_decl", "media_type_params", "item_level_name_clash", "multi_media_responses", "wrapped_refs", "rich_form_fields", "reserved_param_names", "python_name_clash", "noise_responses", "trailing_slash_paths", "prefix_names", "inline_in_aliases", "inline_allof", "shared_body_models", "decorations", "shared_components", "no_operation_id", "long_paths", "coinciding_enums", "http_header_names", "titles", "embedded_placeholders", "root_security", "array_in_unions", "allof_tighten",
 ]
 
 PROP_VOCAB = [
@@ -426,8 +426,20 @@ class DocGen:
                     if not extra["properties"]:
                         extra["properties"] = {"extra_" + self.token(): {"type": "string"}}
                     extra["required"] = [x for x in extra.get("required", []) if x in extra["properties"]]
-                    if not extra["required"]:
-                        extra.pop("required")
+                    if self.on("allof_tighten"):
+                        # two everyday composition idioms that touch the PARENT's own properties: the inline member requires an
+                        # inherited optional property without redeclaring it, or redeclares an inherited scalar / reference
+                        # property with the very same schema (to hang a description on it) - siblings of one parent do either
+                        inherited = self._inherited_props(parent)
+                        opt = [k2 for k2, (ps, rq) in inherited.items() if not rq]
+                        if opt and r.random() < 0.4:
+                            extra["required"] = list(extra.get("required", [])) + r.sample(opt, min(len(opt), r.choice([1, 1, 2])))
+                        plain = [k2 for k2, (ps, rq) in inherited.items() if isinstance(ps, dict) and (set(ps) <= {"type", "format", "description"} and isinstance(ps.get("type"), str) and ps.get("type") != "array" and ps.get("type") != "object" or set(ps) == {"$ref"})]
+                        if plain and r.random() < 0.35:
+                            k2 = r.choice(plain)
+                            extra["properties"][k2] = copy.deepcopy(inherited[k2][0])
+                    if not extra.get("required"):
+                        extra.pop("required", None)
                     s = {"allOf": [self.ref(parent), extra]}
             elif k == "array":
                 tgt = [x for x in earlier if kinds[names.index(x)] in ("model", "allof", "enum")]
@@ -485,6 +497,22 @@ class DocGen:
             else:
                 r.shuffle(order)
             self.schemas = {k: self.schemas[k] for k in order}
+
+    def _inherited_props(self, name: str, depth: int = 0) -> dict[str, tuple[Any, bool]]:
+        """wire name -> (schema, required) of every property a component model declares or inherits"""
+        s = self.schemas.get(name, {})
+        out: dict[str, tuple[Any, bool]] = {}
+        if depth > 6:
+            return out
+        for m in s.get("allOf", []):
+            if isinstance(m, dict) and "$ref" in m:
+                out.update(self._inherited_props(m["$ref"].rsplit("/", 1)[1], depth + 1))
+            elif isinstance(m, dict):
+                for k, v in (m.get("properties") or {}).items():
+                    out[k] = (v, k in (m.get("required") or []) or (k in out and out[k][1]))
+        for k, v in (s.get("properties") or {}).items():
+            out[k] = (v, k in (s.get("required") or []))
+        return out
 
     def _all_prop_names(self, name: str) -> set[str]:
         s = self.schemas.get(name, {})
